@@ -5,7 +5,7 @@ widths, control flow (if / elif / for with all range forms / temporaries), bitst
 packed arrays), hierarchy (sub-components to depth 3, arrays of sub-components, interfaces, arrays of
 interfaces, structural connections incl. slices and constants) and sequential logic.
 
-  design(family, index, seed_tag) -> (name, source)      deterministic for fixed VERIF_SEED
+  design(family, index, seed_tag) -> (name, source, meta) deterministic for fixed VERIF_SEED
   FAMILIES                                               names of the families
 The name encodes family, index and the main parameters: violation keys are built from it.
 """
@@ -41,6 +41,8 @@ class Ctx:
         self.loopvars = []      # (name, max value) in scope
         self.subs = 0
         self.depth_budget = 2
+        self.sigstack = []
+        self.sig = ""
 
     def fresh(self, p):
         self.n += 1
@@ -74,9 +76,26 @@ class Ctx:
         return name, self.structs[name]
 
 
-def _sized(ctx, w, depth, allow_loop=True, nonconst=False):
+def _sized(ctx, w, depth, allow_loop=True, nonconst=False, force=None):
     """Source of an expression of explicit width w.  nonconst: not a compile-time constant (pymtl3 folds
-    constant sub-expressions and then sizes them by value, which makes most such designs untranslatable)."""
+    constant sub-expressions and then sizes them by value, which makes most such designs untranslatable).
+    The shape of the expression (operator / operand-shape tree, without widths and names) is left in
+    ctx.sig: violation keys are built from it."""
+    ctx.sigstack.append(["?", []])
+    src = _sized0(ctx, w, depth, allow_loop, nonconst, force)
+    tok, kids = ctx.sigstack.pop()
+    sig = tok + ("(" + ",".join(kids) + ")" if kids else "")
+    if ctx.sigstack:
+        ctx.sigstack[-1][1].append(sig)
+    ctx.sig = sig
+    return src
+
+
+def _tok(ctx, t):
+    ctx.sigstack[-1][0] = t
+
+
+def _sized0(ctx, w, depth, allow_loop=True, nonconst=False, force=None):
     R = ctx.R
     shapes = ["port", "port", "slice", "field", "uarr", "sub", "tmp"]
     if not nonconst:
@@ -87,7 +106,8 @@ def _sized(ctx, w, depth, allow_loop=True, nonconst=False):
         shapes += ["bin", "bin", "bin", "un", "ifexp", "ext", "cat", "cast", "shiftlit"]
     if ctx.loopvars and allow_loop and not nonconst:
         shapes += ["loopcast"]
-    sh = R.choice(shapes)
+    sh = force or R.choice(shapes)
+    _tok(ctx, sh)
     if sh == "port":
         return "s.%s" % ctx.inport(w)
     if sh == "lit":
@@ -115,8 +135,10 @@ def _sized(ctx, w, depth, allow_loop=True, nonconst=False):
         p = ctx.fresh("st")
         ctx.decl.append("s.%s = InPort( %s )" % (p, sn))
         if variant == 1 and R.random() < 0.6:
+            _tok(ctx, "field.arr")
             return "s.%s.arr[%d]" % (p, R.randrange(2))
         if variant == 2 and R.random() < 0.6:
+            _tok(ctx, "field.nested")
             return "s.%s.inner.g0" % p
         return "s.%s.f1" % p
     if sh == "uarr":
@@ -125,6 +147,7 @@ def _sized(ctx, w, depth, allow_loop=True, nonconst=False):
         ctx.decl.append("s.%s = [ InPort( Bits%d ) for _ in range(%d) ]" % (p, w, n))
         if R.random() < 0.5:
             sel = ctx.inport(clog2(n), reuse=0.5)
+            _tok(ctx, "uarrdyn")
             return "s.%s[ s.%s ]" % (p, sel)
         return "s.%s[%d]" % (p, R.randrange(n))
     if sh == "sub":
@@ -145,7 +168,9 @@ def _sized(ctx, w, depth, allow_loop=True, nonconst=False):
         return "s.%s[ s.%s ]" % (p, sel)
     if sh == "red":
         w2 = R.choice(WIDTHS)
-        return "reduce_%s( %s )" % (R.choice(["and", "or", "xor"]), _sized(ctx, w2, depth - 1, nonconst=True))
+        rop = R.choice(["and", "or", "xor"])
+        _tok(ctx, "red_" + rop)
+        return "reduce_%s( %s )" % (rop, _sized(ctx, w2, depth - 1, nonconst=True))
     if sh == "cmp":
         w2 = R.choice(WIDTHS)
         a = _sized(ctx, w2, max(0, depth - 1), nonconst=True)
@@ -153,9 +178,12 @@ def _sized(ctx, w, depth, allow_loop=True, nonconst=False):
             b = str(lit(R, w2))
         else:
             b = _sized(ctx, w2, max(0, depth - 1))
-        return "( %s %s %s )" % (a, R.choice(CMPOPS), b)
+        cop = R.choice(CMPOPS)
+        _tok(ctx, "cmp" + cop)
+        return "( %s %s %s )" % (a, cop, b)
     if sh == "bin":
         op = R.choice(BINOPS)
+        _tok(ctx, "bin" + op)
         a = _sized(ctx, w, depth - 1, nonconst=True)
         if op == "%":
             b = "( %s | Bits%d( 1 ) )" % (_sized(ctx, w, depth - 1), w)
@@ -179,14 +207,18 @@ def _sized(ctx, w, depth, allow_loop=True, nonconst=False):
         return "( %s if %s else %s )" % (_sized(ctx, w, depth - 1, nonconst=True), c, _sized(ctx, w, depth - 1))
     if sh == "ext":
         if w == 1:
+            _tok(ctx, "trunc")
             return "trunc( %s, 1 )" % _sized(ctx, R.choice([2, 8, 33]), depth - 1, nonconst=True)
         narrower = [x for x in WIDTHS + [3, 4, 16] if x < w]
         wider = [x for x in WIDTHS + [16, 65] if x > w]
         k = R.random()
         if k < 0.4 or not wider:
+            _tok(ctx, "zext")
             return "zext( %s, %d )" % (_sized(ctx, R.choice(narrower), depth - 1, nonconst=True), w)
         if k < 0.8:
+            _tok(ctx, "sext")
             return "sext( %s, %d )" % (_sized(ctx, R.choice(narrower), depth - 1, nonconst=True), w)
+        _tok(ctx, "trunc")
         return "trunc( %s, %d )" % (_sized(ctx, R.choice(wider), depth - 1, nonconst=True), w)
     if sh == "cat":
         if w == 1:
@@ -198,8 +230,8 @@ def _sized(ctx, w, depth, allow_loop=True, nonconst=False):
             parts = [k, j, parts[1] - j]
         return "concat( %s )" % ", ".join(_sized(ctx, p, depth - 1, nonconst=(j == 0)) for j, p in enumerate(parts))
     if sh == "cast":
-        w2 = R.choice([x for x in WIDTHS + [4, 16] if x != w])
-        return "Bits%d( %s )" % (w, _sized(ctx, w2, depth - 1, nonconst=True))
+        # (the simulator only accepts BitsN( x ) for a Bits x of exactly N bits)
+        return "Bits%d( %s )" % (w, _sized(ctx, w, depth - 1, nonconst=True))
     if sh == "loopcast":
         v, mx = R.choice(ctx.loopvars)
         if mx < (1 << w):
@@ -214,6 +246,7 @@ def _subcomp(ctx, w):
     ctx.subs += 1
     cls = ctx.fresh("Sub")
     kind = R.choice(["inv", "add", "reg", "passthru", "nest"]) if ctx.depth_budget > 0 else R.choice(["inv", "add", "reg"])
+    _tok(ctx, "sub." + kind)
     body = {
         "inv": "    @update\n    def up():\n      s.out @= ~s.in_\n",
         "add": "    @update\n    def up():\n      s.out @= s.in_ + %d\n" % (lit(R, w) or 1),
@@ -265,6 +298,7 @@ def fam_ops(R, idx):
     w = WIDTHS[idx % len(WIDTHS)]
     ctx = Ctx(R)
     stmts, outs = [], []
+    sigs = {}
     nout = 5
     for k in range(nout):
         o = "o%d" % k
@@ -273,18 +307,24 @@ def fam_ops(R, idx):
         if r < 0.6:
             op = BINOPS[(idx // len(WIDTHS) + k) % len(BINOPS)]
             a = _sized(ctx, w, 1, nonconst=True)
+            sa = ctx.sig
             if op == "%":
                 b = "( %s | Bits%d( 1 ) )" % (_sized(ctx, w, 1), w)
             else:
                 b = _sized(ctx, w, 1)
             e, ow = "%s %s %s" % (a, op, b), w
+            sigs[o] = "bin%s(%s,%s)" % (op, sa, ctx.sig)
         elif r < 0.8:
             op = CMPOPS[(idx + k) % len(CMPOPS)]
             a = _sized(ctx, w, 1, nonconst=True)
+            sa = ctx.sig
+            ctx.sig = "intlit"
             b = _sized(ctx, w, 1) if R.random() < 0.7 else str(lit(R, w))
             e, ow = "%s %s %s" % (a, op, b), 1
+            sigs[o] = "cmp%s(%s,%s)" % (op, sa, ctx.sig)
         else:
             e, ow = _sized(ctx, w, 2), w
+            sigs[o] = ctx.sig
         outs.append("s.%s = OutPort( Bits%d )" % (o, ow))
         stmts += ctx.pre + ["s.%s @= %s" % (o, e)]
     blocks = []
@@ -297,7 +337,90 @@ def fam_ops(R, idx):
     blocks.append(_block("up_a", first))
     if second:
         blocks.append(_block("up_b", second))
-    return "ops_w%d" % w, _emit(ctx, blocks, outs)
+    return "ops_w%d" % w, _emit(ctx, blocks, outs), sigs
+
+
+UNIT_CONSTRUCTS = ["sext", "zext", "trunc", "red_and", "red_or", "red_xor", "inv", "cmpeq", "cmplt", "add", "sub", "mul",
+                   "and", "shl", "shr", "ifcond", "ifarm", "cat", "dynidx", "slice_of"]
+UNIT_OPERANDS = ["port", "slice", "field", "uarr", "sub", "tmp", "bin", "un", "ifexp", "cat", "ext", "lit", "freevar", "shiftlit"]
+
+
+def fam_unit(R, idx):
+    """One construct applied to every operand shape (one output per operand shape): small expressions,
+    so that a mismatch names the construct and the operand shape it was applied to."""
+    cons = UNIT_CONSTRUCTS[idx % len(UNIT_CONSTRUCTS)]
+    w = WIDTHS[(idx // len(UNIT_CONSTRUCTS)) % len(WIDTHS)]
+    if cons in ("sext", "zext") and w == 64:
+        w = 8
+    if cons == "trunc" and w == 1:
+        w = 7
+    ctx = Ctx(R)
+    stmts, outs, sigs = [], [], {}
+    k = 0
+    for sh in UNIT_OPERANDS:
+        if sh in ("lit", "freevar") and cons not in ("add", "sub", "mul", "and", "cmpeq", "cmplt", "cat", "ifarm"):
+            continue
+        if w == 1 and sh in ("ext", "cat"):
+            continue
+        ctx.pre = []
+        const_ok = sh in ("lit", "freevar")
+        x = _sized(ctx, w, 1, nonconst=not const_ok, force=sh)
+        sx = ctx.sig
+        ow = w
+        if cons in ("sext", "zext"):
+            ow = R.choice([v for v in WIDTHS + [16, 65] if v > w])
+            e = "%s( %s, %d )" % (cons, x, ow)
+        elif cons == "trunc":
+            ow = R.choice([v for v in [1, 2, 3, 7, 8, 31, 32, 33] if v < w])
+            e = "trunc( %s, %d )" % (x, ow)
+        elif cons.startswith("red_"):
+            ow = 1
+            e = "reduce_%s( %s )" % (cons[4:], x)
+        elif cons == "inv":
+            e = "~%s" % x
+        elif cons in ("cmpeq", "cmplt"):
+            ow = 1
+            e = "%s %s s.%s" % (x, "==" if cons == "cmpeq" else "<", ctx.inport(w))
+        elif cons in ("add", "sub", "mul", "and"):
+            op = {"add": "+", "sub": "-", "mul": "*", "and": "&"}[cons]
+            if const_ok:
+                e = "s.%s %s %s" % (ctx.inport(w), op, x)
+            else:
+                e = "%s %s s.%s" % (x, op, ctx.inport(w))
+        elif cons in ("shl", "shr"):
+            e = "s.%s %s %s" % (ctx.inport(w), "<<" if cons == "shl" else ">>", x)
+        elif cons == "ifcond":
+            c = x if w == 1 else "( %s != 0 )" % x
+            e = "s.%s if %s else s.%s" % (ctx.inport(w), c, ctx.inport(w, reuse=0))
+        elif cons == "ifarm":
+            e = "s.%s if s.%s else %s" % (ctx.inport(w), ctx.inport(1), x)
+        elif cons == "cat":
+            ow = w + 3
+            e = "concat( s.%s, %s )" % (ctx.inport(3), x)
+        elif cons == "dynidx":
+            n = 4
+            a = ctx.fresh("a")
+            ctx.decl.append("s.%s = [ InPort( Bits8 ) for _ in range(%d) ]" % (a, n))
+            ow = 8
+            if w == 2:
+                e = "s.%s[ %s ]" % (a, x)
+            else:
+                sel = "trunc( %s, 2 )" % x if w > 2 else "zext( %s, 2 )" % x
+                e = "s.%s[ %s ]" % (a, sel)
+        elif cons == "slice_of":
+            # a slice of a temporary holding the operand
+            t = ctx.fresh("t")
+            ctx.pre.append("%s = %s" % (t, x))
+            lo = R.randrange(w)
+            hi = R.randrange(lo + 1, w + 1)
+            ow = hi - lo
+            e = "%s[%d:%d]" % (t, lo, hi)
+        o = "o%d" % k
+        k += 1
+        sigs[o] = "%s(%s)" % (cons, sx)
+        outs.append("s.%s = OutPort( Bits%d )" % (o, ow))
+        stmts += ctx.pre + ["s.%s @= %s" % (o, e)]
+    return "unit_%s_w%d" % (cons, w), _emit(ctx, [_block("up", stmts)], outs), sigs
 
 
 def fam_expr(R, idx):
@@ -305,12 +428,14 @@ def fam_expr(R, idx):
     w = R.choice(WIDTHS)
     ctx = Ctx(R)
     stmts, outs = [], []
+    sigs = {}
     for k in range(3):
         ctx.pre = []
         e = _sized(ctx, w, 3)
+        sigs["o%d" % k] = ctx.sig
         outs.append("s.o%d = OutPort( Bits%d )" % (k, w))
         stmts += ctx.pre + ["s.o%d @= %s" % (k, e)]
-    return "expr_w%d" % w, _emit(ctx, [_block("up", stmts)], outs)
+    return "expr_w%d" % w, _emit(ctx, [_block("up", stmts)], outs), sigs
 
 
 def fam_ctrl(R, idx):
@@ -323,9 +448,13 @@ def fam_ctrl(R, idx):
     form = idx % 6
     stmts = []
     ctx.pre = []
-    c1 = _sized(ctx, 1, 1)
-    c2 = _sized(ctx, 1, 1)
-    e1, e2, e3 = _sized(ctx, w, 1), _sized(ctx, w, 1), _sized(ctx, w, 1)
+    parts = []
+    c1 = _sized(ctx, 1, 1); parts.append(ctx.sig)
+    c2 = _sized(ctx, 1, 1); parts.append(ctx.sig)
+    e1 = _sized(ctx, w, 1); parts.append(ctx.sig)
+    e2 = _sized(ctx, w, 1); parts.append(ctx.sig)
+    e3 = _sized(ctx, w, 1); parts.append(ctx.sig)
+    sigs = {"o": "if(%s)" % ",".join(parts)}
     stmts += ctx.pre
     if R.random() < 0.5:
         stmts.append("if %s:\n  s.o @= %s\nelif %s:\n  s.o @= %s\nelse:\n  s.o @= %s" % (c1, e1, c2, e2, e3))
@@ -349,16 +478,19 @@ def fam_ctrl(R, idx):
     ctx.loopvars = [("i", mx)]
     ctx.pre = []
     le = _sized(ctx, w, 1)
+    sigs["v"] = "for%d(%s)" % (form, ctx.sig)
+    sigs["bits"] = "for%d(ifbit)" % form
     body = ["s.v[%s] @= s.%s[%s] + %s" % (idxe, a, idxe, le)]
     if R.random() < 0.6:
         body.append("s.bits[%s] @= s.%s[%s] ^ %s" % (idxe, x, idxe, _sized(ctx, 1, 0, allow_loop=False)))
+        sigs["bits"] = "for%d(%s)" % (form, ctx.sig)
     else:
         body.append("if s.%s[%s]:\n  s.bits[%s] @= 1\nelse:\n  s.bits[%s] @= 0" % (x, idxe, idxe, idxe))
     pre = ctx.pre
     ctx.loopvars = []
     stmts.append("for j in range(%d):\n  s.v[j] @= %d\ns.bits @= 0" % (n, lit(R, w)))
     stmts.append("for i in %s:\n%s" % (rng_, "\n".join("  " + ln for st in pre + body for ln in st.split("\n"))))
-    return "ctrl_f%d_w%d_n%d" % (form, w, n), _emit(ctx, [_block("up", stmts)], outs)
+    return "ctrl_f%d_w%d_n%d" % (form, w, n), _emit(ctx, [_block("up", stmts)], outs), sigs
 
 
 def fam_loopidx(R, idx):
@@ -489,11 +621,13 @@ def fam_seq(R, idx):
     w = R.choice([1, 8, 32, 33, 64])
     n = R.choice([2, 4])
     kind = idx % 4
+    sigs = {}
     decl = ["s.d = InPort( Bits%d )" % w, "s.en = InPort( Bits1 )", "s.q = OutPort( Bits%d )" % w]
     ctx.in_ports = {w: ["d"], 1: ["en"]}
     if kind == 0:
         ctx.pre = []
         e = _sized(ctx, w, 2)
+        sigs = {"q": "ff(%s)" % ctx.sig}
         body = ctx.pre + ["if s.reset:\n  s.q <<= %d\nelif s.en:\n  s.q <<= %s" % (lit(R, w), e)]
         blocks = [_block("upff", body, ff=True)]
     elif kind == 1:
@@ -509,7 +643,7 @@ def fam_seq(R, idx):
         decl += ["s.a = Wire( Bits%d )" % w, "s.b = Wire( Bits%d )" % w]
         blocks = [_block("ff_a", ["s.a <<= s.b + s.d"], ff=True), _block("ff_b", ["s.b <<= s.a"], ff=True),
                   _block("up_q", ["s.q @= s.a ^ s.b"])]
-    return "seq_k%d_w%d_n%d" % (kind, w, n), _emit(ctx, blocks, decl)
+    return "seq_k%d_w%d_n%d" % (kind, w, n), _emit(ctx, blocks, decl), sigs
 
 
 def fam_misc(R, idx):
@@ -548,11 +682,14 @@ def fam_misc(R, idx):
     return "misc_k%d_w%d" % (kind, w), _emit(ctx, blocks, decl)
 
 
-FAMILIES = {"ops": fam_ops, "expr": fam_expr, "ctrl": fam_ctrl, "loopidx": fam_loopidx, "struct": fam_struct,
+FAMILIES = {"unit": fam_unit, "ops": fam_ops, "expr": fam_expr, "ctrl": fam_ctrl, "loopidx": fam_loopidx, "struct": fam_struct,
             "hier": fam_hier, "seq": fam_seq, "misc": fam_misc}
 
 
 def design(family, index, seed_tag=""):
+    """-> (name, source, {"family", "shape", "sigs": {top-level output name: shape of its expression}})"""
     R = rng("svgen/%s/%s/%d" % (seed_tag, family, index))
-    name, src = FAMILIES[family](R, index)
-    return "gen:%s:%d:%s" % (family, index, name), src
+    r = FAMILIES[family](R, index)
+    name, src = r[0], r[1]
+    sigs = r[2] if len(r) > 2 else {}
+    return "gen:%s:%d:%s" % (family, index, name), src, {"family": family, "shape": name, "sigs": sigs}
